@@ -215,6 +215,10 @@ class Scenario:
                 fs = self.base(False) + [term == 0]
             else:
                 fs = self.base(False) + [term == 0]
+            if self.post_subst:
+                # obligations of this scenario are decided at the substituted point: the divisors need to be non-zero there
+                zs = [(self.enc.var(kk), R.Q(Fraction(v))) for kk, v in self.post_subst.items()]
+                fs = [z3.simplify(z3.substitute(f, *zs)) for f in fs]
             r = R.solve('den', fs, self.timeout)
             self.queries += 1
             self.solver_time += r.t
